@@ -173,11 +173,22 @@ func (h *NFSProcedureHandler) handleFsinfo(body io.Reader, reply *RPCReply, auth
 		return nfsErrorWithPostOp(reply, NFSERR_IO), nil
 	}
 
-	binary.Write(&buf, binary.BigEndian, uint32(1048576))       // rtmax
-	binary.Write(&buf, binary.BigEndian, uint32(65536))         // rtpref
+	// Advertise what READ/WRITE actually accept: TransferSize, capped so that a
+	// WRITE call (data plus under 1KB of RPC and NFS headers) fits in one record.
+	maxXfer := uint32(h.server.handler.tuning.Load().TransferSize)
+	if maxXfer > DefaultMaxRecordSize-1024 {
+		maxXfer = DefaultMaxRecordSize - 1024
+	}
+	prefXfer := maxXfer
+	if prefXfer > 65536 {
+		prefXfer = 65536
+	}
+
+	binary.Write(&buf, binary.BigEndian, maxXfer)               // rtmax
+	binary.Write(&buf, binary.BigEndian, prefXfer)              // rtpref
 	binary.Write(&buf, binary.BigEndian, uint32(4096))          // rtmult
-	binary.Write(&buf, binary.BigEndian, uint32(1048576))       // wtmax
-	binary.Write(&buf, binary.BigEndian, uint32(65536))         // wtpref
+	binary.Write(&buf, binary.BigEndian, maxXfer)               // wtmax
+	binary.Write(&buf, binary.BigEndian, prefXfer)              // wtpref
 	binary.Write(&buf, binary.BigEndian, uint32(4096))          // wtmult
 	binary.Write(&buf, binary.BigEndian, uint32(8192))          // dtpref (C1: uint32 not uint64)
 	binary.Write(&buf, binary.BigEndian, uint64(1099511627776)) // maxfilesize
